@@ -13,8 +13,42 @@ sys.path.insert(0, HERE)
 from tools.manifest_table import CLAIMED, NOT_APPLICABLE  # noqa
 
 checks = []
+# what was added after the table was written: further functions under contract and the bounded stand-ins (A.4)
+ADDED = {
+    'C01': 'Also: exception-freedom (safety) obligations of CallDetails.calculate_index shared with C11.',
+    'C03': 'Also: get_global_filters proved against the class-body rule (enclosing class contexts are skipped).',
+    'C08': 'Also: get_parso_cache_node (KeyError iff absent) and the filter constructor (a parser-cache entry is used '
+           'as memo key only if it holds this very tree); settings switches restored on every written exit; parse '
+           'options passed through unchanged.',
+    'C09': 'Also: every get_last_modified defined in jedi/file_io.py returns exactly os.path.getmtime (None iff the '
+           'file does not exist) - one contract per definition found on each run.',
+    'C11': 'Also: clean_scope_docstring / find_statement_documentation (= inspect.cleandoc of the literal), '
+           'Signature.index / params / to_string all use the star-resolved parameter list.',
+    'C12': 'Also: get_module_info runs the lookup while sys.path IS the given path (also when it is empty).',
+    'C13': 'Also: getattr_static block contract (data-descriptor precedence per the data model), '
+           'CompiledValueFilter._get (a name for everything dir() lists; descriptor hits become placeholders), '
+           'py__getitem__all_values effect obligations.',
+    'C14': 'Also: the reply of the helper is what _send/run/the wrapper return; a Script is marked used BEFORE its '
+           'request; the deletion queue is unbounded.',
+    'C15': 'Also: goto_import never answers with the queried import name itself (block contract); the recursion-cut '
+           'defaults of 16 memoised functions and the two import-cycle guards are in place (inventory).',
+    'C16': 'Also: the seven query methods reset the recursion bookkeeping first (frame obligation).',
+    'C17': 'Also: _check_fs parses project files found by the text search from bytes decoded per PEP 263.',
+    'C18': 'Also: the dotted name of the buffer is derived without the ancestor directories.',
+    'C20': 'Also: get_module_info contract shared with C12 ("this path is what import resolution uses").',
+}
+STANDIN_NOTE = (' Bounded stand-in on the real code (standins/%s.py; labelled bounded in the evidence, never counted as '
+                'proved; scope in DESIGN.md A.4). Solver verdicts are guarded (relevance-filtered axioms, hypotheses '
+                'guard with cvc5, covers; thorough tier cross-checks every unsat with z3 4.8.12 and cvc5): DESIGN.md A.6.')
 for pid in sorted(CLAIMED):
     text, note, technique, ref = CLAIMED[pid]
+    if pid in ADDED:
+        text = text + ' ' + ADDED[pid]
+    if os.path.exists(os.path.join(HERE, 'standins', pid.lower() + '.py')):
+        note = note + STANDIN_NOTE % pid.lower()
+        if 'stand-in' not in technique:
+            technique = technique + ' + bounded stand-in (executable contracts on the real code, bounded scope)'
+    ref = ref + ' and A.4'
     checks.append({
         'property_id': pid,
         'quick_cmd': './check %s --tier quick' % pid,
